@@ -207,12 +207,32 @@ void h_skip_object(void) {
 #ifdef CUT_PKEY
 static struct S_AJ__detail__VariantData g_member[MAXC + 1], g_existing[MAXC + 1]; static struct S_AJ__detail__StringNode g_node;
 static unsigned g_gets, g_found[MAXC + 1], g_saves, g_madds, g_madd_failed, g_clears; static struct S_AJ__detail__VariantData* g_cleared[MAXC + 1]; static unsigned g_seq_bad;
-uint32_t CUT_PKEY(struct S_AJ__detail__JsonDeserializer* d) { uint8_t k[1] = {'k'}; uint32_t c = keystub(d); if (c == OK) w_jd_set_key(d, k, 1); return c; }
-struct S_AJ__detail__VariantData* CUT_GETMEMBER(struct S_AJ__detail__ObjectData* o, uint8_t* key, struct S_AJ__detail__ResourceManager* rm) {
+#ifdef NULKEY   /* the parsed key contains a NUL (as produced by \u0000): k NUL x, 3 bytes */
+#define KEYLEN 3
+static const uint8_t KEYBYTES[3] = {'k', 0, 'x'};
+#else
+#define KEYLEN 1
+static const uint8_t KEYBYTES[3] = {'k', 0, 0};
+#endif
+uint32_t CUT_PKEY(struct S_AJ__detail__JsonDeserializer* d) { uint32_t c = keystub(d); if (c == OK) w_jd_set_key(d, KEYBYTES, KEYLEN); return c; }
+static struct S_AJ__detail__VariantData* getmember_common(void) {
   unsigned c = g_gets < MAXC ? g_gets : MAXC; g_gets++; if (g_gets != g_keyc || g_gets != g_calls + 1) g_seq_bad = 1;
-  VASSERT(key != 0 && key[0] == 'k' && key[1] == 0, "the key looked up is the key that was just parsed");
   g_found[c] = vin_u8() & 1; return g_found[c] ? &g_existing[c] : 0;
 }
+#ifdef CUT_GETMEMBER      /* lookup through a zero-terminated view of the key */
+struct S_AJ__detail__VariantData* CUT_GETMEMBER(struct S_AJ__detail__ObjectData* o, uint8_t* key, struct S_AJ__detail__ResourceManager* rm) {
+  unsigned n = 0; int end = 0; for (unsigned i = 0; i < 4; i++) if (!end) { if (key[i] == 0) end = 1; else n++; }
+  VASSERT(key != 0 && n == KEYLEN && key[0] == KEYBYTES[0], "the key looked up is the WHOLE key that was just parsed (a key containing NUL must not be cut at the NUL)");
+  return getmember_common();
+}
+#endif
+#ifdef CUT_GETMEMBER_SIZED   /* lookup through a sized view of the key */
+struct S_AJ__detail__VariantData* CUT_GETMEMBER_SIZED(struct S_AJ__detail__ObjectData* o, struct S_AJ__detail__JsonStringAdapter* key, struct S_AJ__detail__ResourceManager* rm) {
+  uint8_t* p = w_jsa_data(key); uint64_t n = w_jsa_size(key);
+  VASSERT(p != 0 && n == KEYLEN && p[0] == KEYBYTES[0] && (KEYLEN < 3 || (p[1] == KEYBYTES[1] && p[2] == KEYBYTES[2])), "the key looked up is the WHOLE key that was just parsed, length included");
+  return getmember_common();
+}
+#endif
 struct S_AJ__detail__StringNode* CUT_SB_SAVE(struct S_AJ__detail__StringBuilder* sb) { g_saves++; return &g_node; }
 struct S_AJ__detail__VariantData* CUT_ADD_MEMBER(struct S_AJ__detail__ObjectData* o, struct S_AJ__detail__StringNode* key, struct S_AJ__detail__ResourceManager* rm) {
   unsigned c = g_gets ? g_gets - 1 : 0; g_madds++; VASSERT(key == &g_node, "the member is added with the key that was just saved");
